@@ -151,9 +151,10 @@ def run(ctx):
         detail = M.term_str(a)
         if a[0] == "call" and a[1] == "std::cmp::min" and len(a[2]) == 2:
             x, y = a[2]
-            rem_ok = any(u[0] == "call" and u[1] == "std::time::Instant::duration_since" and is_deadline(M.strip(u[2][0]))
+            REM = ("std::time::Instant::duration_since", "std::time::Instant::saturating_duration_since", "std::time::Instant::checked_duration_since")
+            rem_ok = any(u[0] == "call" and u[1] in REM and is_deadline(M.strip(u[2][0]))
                          and M.strip(u[2][1])[0] == "call" and M.strip(u[2][1])[1] == "std::time::Instant::now" for u in (x, y))
-            delay = [u for u in (x, y) if not (u[0] == "call" and u[1] == "std::time::Instant::duration_since")]
+            delay = [u for u in (x, y) if not (u[0] == "call" and u[1] in REM)]
             caps = []
             cap_ok = False
             if len(delay) == 1:
